@@ -436,8 +436,60 @@ func TestSweeps(t *testing.T) {
 	}
 }
 
+// histories: several calls on ONE client (and its transport); each result must be the decoding of its own reply -
+// nothing may be carried over from an earlier call (caches, reused buffers, lazily initialised state).
+type history struct {
+	Cfg   hook.ClientCfg `json:"cfg"`
+	Steps []replyCase    `json:"steps"`
+}
+
+func checkHistory(h history) *rp.Fail {
+	u, d := hook.Mem(h.Cfg)
+	for i, c := range h.Steps {
+		c.Cfg = h.Cfg
+		c.Call = accepted(c.Call)
+		d.Reset(c.Reply)
+		res := api.Invoke(u, api.Case{Call: c.Call, V: api.Variant{}})
+		want := spec.Decode(c.Call, configFor(c), c.Reply)
+		class, nt := classify(c, want)
+		ev.Case("history/op/"+c.Call.Op, nt, fmt.Sprint(i, c.Call.Op, c.Call.Card, c.Call.Profile)+string(c.Reply))
+		ev.Class("class/"+class, 1)
+		if i > 0 {
+			ev.Class("history/call-after-earlier-calls", 1)
+		}
+		if msg := api.Compare(res, want); msg != "" {
+			return rp.Failf("uhppote."+c.Call.Op+"/history", "call %d of a sequence on one client: %s with reply %x: %s", i, c.Call.Op, c.Reply, msg)
+		}
+		if len(d.Sends()) != 1 {
+			return rp.Failf("uhppote."+c.Call.Op+"/history-sends", "call %d of a sequence made %d transport calls", i, len(d.Sends()))
+		}
+	}
+	return nil
+}
+
+func genHistory(t *rapid.T) history {
+	first := genCase(t)
+	h := history{Cfg: first.Cfg, Steps: []replyCase{first}}
+	n := rapid.IntRange(1, 7).Draw(t, "more")
+	for i := 0; i < n; i++ {
+		c := genCase(t)
+		switch rapid.IntRange(0, 3).Draw(t, "relation") {
+		case 0: // same operation and controller as the previous call, another reply
+			prev := h.Steps[len(h.Steps)-1]
+			c.Call.Op, c.Call.Serial = prev.Call.Op, prev.Call.Serial
+			c.Reply = gen.Reply(t, c.Call)
+		case 1: // same controller, other operation
+			c.Call.Serial = h.Steps[len(h.Steps)-1].Call.Serial
+			c.Reply = gen.Reply(t, c.Call)
+		}
+		h.Steps = append(h.Steps, c)
+	}
+	return h
+}
+
 func props() []rp.Prop {
 	return []rp.Prop{
+		rp.P[history]{Name: "history", Checks: ev.Pick(20000, 600000) / ev.Shards(), Gen: genHistory, Check: checkHistory},
 		rp.P[replyCase]{Name: "reply", Checks: ev.Pick(120000, 3000000) / ev.Shards(), Gen: genCase, Sweep: sweepOffsets, Check: checkReply},
 		rp.P[replyCase]{Name: "sweep", Check: checkReply},
 	}
